@@ -277,6 +277,7 @@ package boltz
 
 //@ func (*IndexingContext).Tx
 //@   pure
+//@   ensures result == ctxTx[ctx.Ctx]
 //@ spec isSysRow(sym Int, row Str) Bool = (and (not (f2bNull (symFT sym row) (symBytes sym row) (symBytesNil sym row))) (f2bVal (symFT sym row) (symBytes sym row)))
 
 //@ func (*systemEntityConstraint).checkOperation
